@@ -453,10 +453,15 @@ class SamplerCore:
         """Get distribution function (map or pool.map)."""
         if self.config.pool is None:
             return map
-        elif isinstance(self.config.pool, int) and self.config.pool > 1:
+        elif isinstance(self.config.pool, (int, np.integer)) and not isinstance(
+            self.config.pool, bool
+        ):
+            # A number of processes; one process evaluates serially
+            if self.config.pool <= 1:
+                return map
             from multiprocess import Pool
 
-            pool = Pool(self.config.pool)
+            pool = Pool(int(self.config.pool))
             return pool.map
         else:
             return self.config.pool.map
